@@ -506,7 +506,7 @@ Section C04.
   Proof.
     induction ops as [|o ops IH]; intros s I NS; cbn [run]; [apply G_refl; exact I|].
     inversion NS as [|o' ops' No Nops]; subst.
-    unfold step. destruct (exec P (fst o) s (snd o)) as [s'| |] eqn:E; cbn [fst]; try (apply IH; assumption).
+    unfold step. destruct (deliver P (fst o) s (snd o)) as [s'| |] eqn:E0; [apply deliver_ok in E0 as E| |]; cbn [fst]; try (apply IH; assumption).
     pose proof (G_exec _ _ _ _ I No E) as G1.
     eapply G_trans; [exact G1|]. apply IH; [apply G1|]. destruct G1 as (_ & -> & _). exact Nops.
   Qed.
@@ -517,9 +517,7 @@ Section C04.
     acked s (p_dst (fst (decode P (am_packet m)))) (p_seq (fst (decode P (am_packet m)))) ->
     step P s (env, AAck m cb1 cb2 cb3) = (s, false).
   Proof.
-    intros I [A _]. unfold step. cbn [fst snd].
-    destruct (exec P env s (AAck m cb1 cb2 cb3)) as [s'| |] eqn:E; try reflexivity.
-    exfalso. cbn [exec] in E. apply ack_handler_ok in E. cbv zeta in E.
+    intros I [A _]. apply step_rejected. intros s' E. cbn [exec] in E. apply ack_handler_ok in E. cbv zeta in E.
     destruct E as (s1 & a & AK & _).
     destruct (ack_keeper_noself _ _ _ _ I AK) as (Src & _ & Cp & _).
     apply Cp. unfold triple_of. rewrite Src. exact A.
@@ -645,7 +643,7 @@ Section C04.
   Proof.
     induction ops as [|o ops IH]; intros s I NS AL; cbn [run]; [exact AL|].
     inversion NS as [|o' ops' No Nops]; subst.
-    unfold step. destruct (exec P (fst o) s (snd o)) as [s'| |] eqn:E; cbn [fst]; try (apply IH; assumption).
+    unfold step. destruct (deliver P (fst o) s (snd o)) as [s'| |] eqn:E0; [apply deliver_ok in E0 as E| |]; cbn [fst]; try (apply IH; assumption).
     pose proof (G_exec _ _ _ _ I No E) as (I' & Nm & _).
     apply IH; [exact I' | rewrite Nm; exact Nops | eapply acklog_exec; [exact I | exact No | exact AL | exact E]].
   Qed.
